@@ -81,6 +81,13 @@ class Effect:
     other: tuple  # any other effect event (unexpected)
 
 
+def is_lock_op(e: PEvent) -> bool:
+    import ast
+
+    f = e.node.ast.func if isinstance(e.node.ast, ast.Call) else None
+    return isinstance(f, ast.Attribute) and f.attr in ("acquire", "release") and e.recv == attr(SELF, "_lock") and not e.args and not e.kwargs
+
+
 def _is_clear(e: PEvent, container: Any) -> bool:
     import ast
 
@@ -122,6 +129,8 @@ def decode(p: SymPath) -> Effect:
                 notes.append(tuple("klass" if a == ("param", "klass") else val_name(a) for a in vals))
             elif e.callback() == "clock":
                 pass
+            elif is_lock_op(e):
+                pass  # `self._lock.acquire()` ... `finally: release()`: the spelled-out `with self._lock` (judged by C17)
             else:
                 other.append("call " + e.label)
     if p.exit[0] != "return":
